@@ -580,6 +580,36 @@ def _exec_loader(case, mon):
         again, _ = one_epoch(A, e0, "epoch setter")
         mon.check(_same_obj(again, delivered[e0]), "same-seed-epoch-identical", epoch=e0, how="epoch setter",
                   observed=_brief(again), expected=_brief(delivered[e0]))
+        # ---- call histories on one loader object: len() asked for the first time in the middle of an epoch, and
+        # len() right after an epoch that was abandoned half-way
+        if case["num_workers"] == 0 and len(delivered[e0]) >= 2:
+            C = mon.lib(name, _make_loader, case, root, e0)
+            it = iter(C)
+            got = [next(it)]
+            n_mid = mon.lib("len(loader)", len, C)
+            got.extend(it)
+            mon.stat("history_len_mid_epoch")
+            mon.check(n_mid == len(got), "loader-len", what="len() asked in the middle of an epoch", len=n_mid,
+                      delivered=len(got), epoch=e0)
+            mon.check(_same_obj(got, delivered[e0]), "same-seed-epoch-identical", epoch=e0,
+                      how="len() called while the epoch was under way", observed=_brief(got),
+                      expected=_brief(delivered[e0]))
+            C = mon.lib(name, _make_loader, case, root, e0)  # a fresh object: its length was never asked for
+            it = iter(C)
+            next(it)
+            if len(delivered[e0]) >= 3:
+                next(it)
+            del it  # abandoned
+            e_next = C.epoch
+            n_ab = mon.lib("len(loader)", len, C)
+            full = mon.lib(name + ".__iter__", list, C)
+            mon.stat("history_len_after_abandoned_epoch")
+            mon.check(n_ab == len(full), "loader-len", what="len() right after an abandoned epoch", len=n_ab,
+                      delivered=len(full), epoch=e_next)
+            if e_next in delivered:
+                mon.check(_same_obj(full, delivered[e_next]), "same-seed-epoch-identical", epoch=e_next,
+                          how="epoch after an abandoned one", observed=_brief(full),
+                          expected=_brief(delivered[e_next]))
         mon.observe("loader_shapes", "%s/N%d/b%d/nb%d/%s%s" % (fam, N, case["batch_size"], nb,
                                                                 "D" if dyn else "", "drop" if case["drop_last"] else ""))
         if most < 2:
